@@ -27,6 +27,8 @@ type Obligation struct {
 	Clause *Clause
 	Inputs map[string]Val // parameter / pre-state names for model extraction
 	Note   string
+	Undecidable string // the clause could not be evaluated (names a function that no longer exists)
+	Tainted     string // a contract assumed on this path had a clause that could not be evaluated
 	NeedsSqrt, NeedsLog bool
 	// results
 	Result SolverResult
@@ -422,7 +424,7 @@ func (x *Exec) emit(s *State, kind, label string, props []string, goal string, c
 	fname := fnName(x.fn)
 	o := &Obligation{Name: fname + "/" + kind + ":" + label, Func: fname, Kind: kind, Label: label, Props: props,
 		PathID: x.paths, PC: append([]string(nil), s.pc...), Goal: goal, Clause: cl, Inputs: x.inputs,
-		Note: strings.Join(s.trace, " > ")}
+		Note: strings.Join(s.trace, " > "), Tainted: s.tainted}
 	if kind == "ensures" || kind == "inv" || kind == "rely" || kind == "safety" {
 		o.Final = copyHeap(s.heap)
 	}
